@@ -248,3 +248,15 @@ func TestAgree(t *testing.T) {
 		t.Errorf("different values must not agree")
 	}
 }
+
+func TestStringTagThroughPointer(t *testing.T) {
+	seven := 7
+	type T struct {
+		P *int `json:",string"`
+		Q *int `json:",string"`
+	}
+	v := T{P: &seven}
+	std, _ := json.Marshal(v)
+	expect(t, "ptr string tag", v, Opts{UseTags: true, KeyExact: true},
+		[]string{string(std), `{"P":7,"Q":null}`, `{"P":"7","Q":null}`}, []string{`{"P":"8","Q":null}`, `{"P":7}`})
+}
